@@ -9,6 +9,27 @@ CHECKS = {
  "C16": dict(cat="fault_enumeration", tech="deterministic simulation with RNG fault injection at every draw index + draw-ledger histories",
    text="Fault enumeration over the library's random draws: for each backend x operation kind the failure is injected at every draw index (clean and after partial garbage fill) and the operation must return Err without panicking, followed by a healthy operation that must succeed (bounded liveness). Histories of up to 10^5 consecutive operations in Tagged RNG mode check with a draw ledger that every nonce/salt/ephemeral key/key is (the spec function of) a draw made inside that call and never repeats. RSA key generation draw indices are sampled.",
    note="RSA entropy observed through hook H-v1 (look-alike of rand_core OsRng); libsodium cannot report RNG failure so paseto-v4-sodium is covered by histories only; aws-lc's internal ECDSA nonce is supplied through hook H-lc-k", ref="5 C16"),
+ "C02": dict(cat="fault_enumeration", tech="deterministic simulation: wire-fault injection on tokens (complete per-token bit/truncation/shift enumeration + seeded composed faults), ideal-token-table oracle",
+   text="The simulated network corrupts token text between issuer and verifier nodes. Enumeration runs apply every single-bit flip of every payload/footer/assertion byte, every truncation, every boundary shift (message<->footer<->assertion, payload->footer) up to 64 and extensions to one fresh token per backend x purpose x footer y/n x assertion y/n; exploration runs compose 1-3 faults with wrong keys (other principal, one-bit neighbour) and header relabels delivered to the new label's parser with a same-bytes key. Oracle: accept iff the delivered (text, key, assertion) is exactly something that was sealed; v1/v2 must reject a non-empty assertion on seal and unseal. The per-token fault space is complete, tokens and keys are sampled.",
+   note="false-alarm probability per case <= 2^-128 (a corruption that is itself authentic would be judged by the table); algebraic signature malleability (r, n-s) is outside the property's fault list", ref="5 C02"),
+ "C03": dict(cat="exploration", tech="deterministic simulation: heterogeneous nodes (sibling backends + independent reference implementation), chosen/edge nonces, buggify point on the derived AES counter",
+   text="Every token any node seals is verified, decoded and (for deterministic constructions: all local tokens, Ed25519) recomputed bit for bit by an independent implementation of the spec written on the other crypto provider, which itself reproduces the spec vectors at start-up. Reference- and sibling-issued tokens with random and edge nonces (v1 embedded CTR block near a 64-bit carry; v3 derived counter block forced near a carry on all nodes through hook H-iv) must be accepted with identical claims by every backend of the version. Sampled, not enumerated.",
+   note="RFC 6979 (paseto-v3) and randomized signatures are cross-verified rather than compared; the reference is trusted because it reproduces the specification's vectors; PAE of the reference is its own", ref="5 C03"),
+ "C05": dict(cat="exploration", tech="deterministic simulation: key-store write/read between nodes, restart, seeded RNG incl. edge values, ideal-key-store oracle (fault-free configuration)",
+   text="Custodian nodes wrap (PIE), password-wrap (any-bytes passwords, minimal/varied/default parameters) and seal (PKE) keys into a simulated store; the same, a sibling-backend or a restarted node reads them back fault-free. Oracle: ideal key store (same key bytes) and the fixed serialised length per format. Library RNG values include edge scripts (zero / all-ones / out-of-range ephemeral scalars).",
+   note="RSA-4096 PKE keys from a fixed pool; non-default PBKW params obtained via the only public route (parse a crafted blob, take .params())", ref="5 C05"),
+ "C06": dict(cat="fault_enumeration", tech="deterministic simulation: storage-fault injection on PASERK blobs (complete per-blob bit/length/relabel enumeration + seeded composed faults incl. stale and misdirected reads), ideal-key-store oracle",
+   text="The simulated store corrupts blobs: every single-bit flip of every byte, every truncation, extensions 1..64, every header relabel among k1..k4 x local/secret x pie/pw/seal read with the new label's parser, wrong wrapping key (one-bit neighbours), wrong passwords (each byte changed, empty, prefix, extended), wrong recipient; each faulted blob is also offered to the sibling backend. Oracle: unwrap succeeds only for exactly-as-stored blob and secret and then returns exactly the stored key - never another key. k1.seal bit flips are sliced across runs (33 ms per RSA-4096 decryption).",
+   note="PBKW blobs whose corrupted cost fields exceed the cost budget are skipped and counted; passwords equal up to trailing NUL bytes are the same PBKDF2-HMAC password by construction of the k1/k3 format and are treated as equal by the oracle", ref="5 C06"),
+ "C07": dict(cat="exploration", tech="deterministic simulation: heterogeneous custodians (sibling backends + independent reference implementation), chosen/edge entropy, buggify point on derived PIE/PKE counter blocks",
+   text="Every blob any node writes is unwrapped by the independent reference implementation to the same key and recomputed bit for bit from its embedded nonce/salt/ephemeral secret; reference- and sibling-written blobs (including PBKW CTR nonces 0xff..ff and other near-carry blocks, PIE/PKE derived counter blocks forced near a carry through hook H-iv) must unwrap to the same key on every backend of the version.",
+   note="k1.seal has no independent reference (raw RSA unavailable from a second provider): covered by round trip, fault injection and the repository's vectors only; PBKW parallelism kept at 1", ref="5 C07"),
+ "C10": dict(cat="fault_enumeration", tech="deterministic simulation: misdelivery of every artifact to every parser (complete 90x90 matrix per run), header-rewrite faults",
+   text="Per run one fresh valid instance of each of the 15 serialised artifact kinds on each backend is offered to every (backend, kind) parser: accepted iff same version and kind. Plus key byte strings of every other kind's length offered as each key kind, ids of the wrong decoded length, and every authenticated blob re-labelled to every other version/kind and unwrapped with the right secret. The matrix is enumerated completely; the instances are sampled.",
+   note="Public/PkePublic and Secret/PkeSecret share a PASERK header by design (same key type on v2-v4; told apart by modulus size on v1)", ref="5 C10"),
+ "C12": dict(cat="fault_enumeration", tech="deterministic simulation: the C02 fault world with recording decoder/validator (invocation history) and paired deliveries",
+   text="Same fault enumeration and exploration as C02, with a payload type whose decoder records every invocation (and fails on a marker) and a counting validator: for every delivered token the ideal table calls unauthentic, decoder and validator invocation counts must stay 0 and the error must be a format/crypto error (ClaimsError only for the v1/v2 assertion rule, PayloadError only from footer decoding at parse time); paired tokens differing only in whether their payload decodes must fail with the same error kind under the same corruption.",
+   note="the sub-claim that the unverified footer is reachable only through unverified_footer() is an API-shape statement and is not decided by execution", ref="5 C12"),
 }
 
 NA = {
